@@ -158,6 +158,12 @@ def check_wrapper_split(rule, w, fnn, cone_key, sizes):
                            "one `[:ml]` slice + a block walk", [pf.norm_expr(n) for n in subs][:4])
             continue
         first = pf.norm_expr(head[0].slice.upper)
+        lo = walk[0].slice.lower
+        if isinstance(lo, ast.Subscript) and isinstance(lo.value, ast.Name):
+            # precomputed boundary table: X = [ml]; for m in sizes: X.append(X[-1] + m); pieces X[k]:X[k+1]
+            _table_walk(rule, key, m, fn, walk[0], first, sizes, cone_key)
+            _none_guards(rule, key, m, fn, subs, vec)
+            continue
         # the walk's offset variable and its initialisation
         wv = [x for x in pf.names_in(walk[0].slice.lower)]
         loop = next((p for p in _parents(walk[0], fn) if isinstance(p, ast.For)), None)
@@ -179,16 +185,62 @@ def check_wrapper_split(rule, w, fnn, cone_key, sizes):
                            "offset initialised to %s (upper bound of the first slice)" % first, pf.norm_expr(init.value))
         else:
             rule.ok(key + ":start", m.where(init, fn), "[:%s] then offset = %s" % (first, first))
-        # None test precedes slicing
-        for n in subs:
-            conds = pf.path_condition(n, cross_loops=True)
-            prem = pf.P_and(*conds) if conds else pf.P_TRUE
-            if pf.implies(prem, pf.P_not(pf.P_atom("(sol['%s'] is None)" % vec))) is True:
-                rule.ok(key + ":none-guard:" + pf.norm_expr(n)[:40], m.where(n, fn))
-            else:
-                rule.violation(key + ":none-guard:" + pf.norm_expr(n)[:40], m.where(n, fn),
-                               "sol['%s'] is sliced on a path where it may be None (certificate results)" % vec,
-                               "guarded by `sol['%s'] is None` test" % vec, repr(prem))
+        _none_guards(rule, key, m, fn, subs, vec)
+
+
+def _none_guards(rule, key, m, fn, subs, vec):
+    # None test precedes slicing
+    for n in subs:
+        conds = pf.path_condition(n, cross_loops=True)
+        prem = pf.P_and(*conds) if conds else pf.P_TRUE
+        if pf.implies(prem, pf.P_not(pf.P_atom("(sol['%s'] is None)" % vec))) is True:
+            rule.ok(key + ":none-guard:" + pf.norm_expr(n)[:40], m.where(n, fn))
+        else:
+            rule.violation(key + ":none-guard:" + pf.norm_expr(n)[:40], m.where(n, fn),
+                           "sol['%s'] is sliced on a path where it may be None (certificate results)" % vec,
+                           "guarded by `sol['%s'] is None` test" % vec, repr(prem))
+
+
+def _table_walk(rule, key, m, fn, sub, first, sizes, cone_key):
+    """pieces cut as X[k]:X[k+1] from a boundary table X: X starts at the end of the 'l'
+    piece and grows by the size of each block (m for 'q', m**2 for 's')"""
+    X = sub.slice.lower.value.id
+    lo, up = pf.norm_expr(sub.slice.lower), pf.norm_expr(sub.slice.upper) if sub.slice.upper is not None else None
+    kv = pf.norm_expr(sub.slice.lower.slice)
+    if up not in ("%s[%s + 1]" % (X, kv), "%s[1 + %s]" % (X, kv), "%s[(%s + 1)]" % (X, kv)):
+        rule.violation(key + ":start", m.where(sub, fn), "piece %s:%s is not one entry of the boundary table to the next" % (lo, up),
+                       "%s[%s]:%s[%s + 1]" % (X, kv, X, kv), "%s:%s" % (lo, up))
+        return
+    inits = [a for a in pf._scope_nodes(fn) if isinstance(a, ast.Assign) and len(a.targets) == 1
+             and isinstance(a.targets[0], ast.Name) and a.targets[0].id == X]
+    seeds_ = [a for a in inits if isinstance(a.value, ast.List) and len(a.value.elts) == 1]
+    grow = []
+    for lp in pf._scope_nodes(fn):
+        if isinstance(lp, ast.For) and isinstance(lp.target, ast.Name) and len(lp.body) == 1:
+            b = lp.body[0]
+            g = None
+            if isinstance(b, ast.Expr) and isinstance(b.value, ast.Call) and pf.call_name(b.value) == "%s.append" % X and len(b.value.args) == 1:
+                g = b.value.args[0]
+            elif isinstance(b, ast.Assign) and b in inits and isinstance(b.value, ast.BinOp) and isinstance(b.value.op, ast.Add) \
+                    and isinstance(b.value.right, ast.List) and len(b.value.right.elts) == 1 and pf.norm_expr(b.value.left) == X:
+                g = b.value.right.elts[0]
+            if g is not None:
+                grow.append((lp, g))
+    if len(seeds_) != 1 or len(grow) != 1:
+        rule.undecided(key + ":start", m.where(sub, fn), "boundary table `%s` is not built by the one-seed / one-growth-loop idiom" % X)
+        return
+    seed, (lp, g) = seeds_[0], grow[0]
+    v = lp.target.id
+    want = "(%s[-1] + %s)" % (X, v if cone_key == "q" else "%s ** 2" % v)
+    got = pf.norm_expr(g)
+    if pf.norm_expr(seed.value.elts[0]) != first:
+        rule.violation(key + ":start", m.where(seed, fn), "the boundary table does not start where the 'l' piece ends",
+                       "%s = [%s]" % (X, first), pf.norm_expr(seed.value))
+    elif pf.norm_expr(lp.iter) != sizes or got.replace(" ", "") not in (want.replace(" ", ""), want.replace(" ", "")[1:-1]):
+        rule.violation(key + ":start", m.where(lp, fn), "the boundary table does not grow by the size of each '%s' block" % cone_key,
+                       "for %s in %s: %s.append%s" % (v, sizes, X, want), "for %s in %s: %s" % (v, pf.norm_expr(lp.iter), got))
+    else:
+        rule.ok(key + ":start", m.where(seed, fn), "%s = [%s], grown by %s over %s" % (X, first, got, sizes))
 
 
 def build(tier, repo):
